@@ -370,10 +370,82 @@ pub mod env {
         Args { inner: v.into_iter() }
     }
 
-    pub fn var(key: &str) -> Result<String, VarError> {
+    impl DoubleEndedIterator for Args {
+        fn next_back(&mut self) -> Option<String> {
+            self.inner.next_back()
+        }
+    }
+
+    pub struct ArgsOs {
+        inner: std::vec::IntoIter<std::ffi::OsString>,
+    }
+
+    impl Iterator for ArgsOs {
+        type Item = std::ffi::OsString;
+        fn next(&mut self) -> Option<std::ffi::OsString> {
+            self.inner.next()
+        }
+        fn size_hint(&self) -> (usize, Option<usize>) {
+            self.inner.size_hint()
+        }
+    }
+
+    impl ExactSizeIterator for ArgsOs {
+        fn len(&self) -> usize {
+            self.inner.len()
+        }
+    }
+
+    impl DoubleEndedIterator for ArgsOs {
+        fn next_back(&mut self) -> Option<std::ffi::OsString> {
+            self.inner.next_back()
+        }
+    }
+
+    pub fn args_os() -> ArgsOs {
+        let v: Vec<std::ffi::OsString> = args().map(std::ffi::OsString::from).collect();
+        ArgsOs { inner: v.into_iter() }
+    }
+
+    pub fn var<K: AsRef<std::ffi::OsStr>>(key: K) -> Result<String, VarError> {
+        let key = key.as_ref().to_string_lossy().to_string();
         dsim::with(|w| {
             let p = w.cur_proc();
-            w.procs[p].env.get(key).cloned().ok_or(VarError::NotPresent)
+            w.procs[p].env.get(&key).cloned().ok_or(VarError::NotPresent)
+        })
+    }
+
+    pub fn var_os<K: AsRef<std::ffi::OsStr>>(key: K) -> Option<std::ffi::OsString> {
+        var(key).ok().map(std::ffi::OsString::from)
+    }
+
+    /// the simulated process's environment (a snapshot, like std's)
+    pub fn vars() -> std::vec::IntoIter<(String, String)> {
+        let v: Vec<(String, String)> = dsim::with(|w| {
+            let p = w.cur_proc();
+            w.procs[p].env.iter().map(|(k, v)| (k.clone(), v.clone())).collect()
+        });
+        v.into_iter()
+    }
+
+    pub fn vars_os() -> std::vec::IntoIter<(std::ffi::OsString, std::ffi::OsString)> {
+        let v: Vec<_> = vars().map(|(k, v)| (std::ffi::OsString::from(k), std::ffi::OsString::from(v))).collect();
+        v.into_iter()
+    }
+
+    pub fn set_var<K: AsRef<std::ffi::OsStr>, V: AsRef<std::ffi::OsStr>>(key: K, value: V) {
+        let (k, v) = (key.as_ref().to_string_lossy().to_string(), value.as_ref().to_string_lossy().to_string());
+        dsim::with(|w| {
+            let p = w.cur_proc();
+            w.procs[p].env.insert(k, v);
+        })
+    }
+
+    pub fn remove_var<K: AsRef<std::ffi::OsStr>>(key: K) {
+        let k = key.as_ref().to_string_lossy().to_string();
+        dsim::with(|w| {
+            let p = w.cur_proc();
+            w.procs[p].env.remove(&k);
         })
     }
 }
@@ -423,7 +495,7 @@ pub mod fs {
 
         pub fn metadata(&self) -> io::Result<Metadata> {
             let len = dsim::with(|w| w.vfs.get(&self.path).map(|f| f.data.len() as u64)).ok_or_else(|| io::Error::new(io::ErrorKind::NotFound, "gone"))?;
-            Ok(Metadata { len })
+            Ok(Metadata { len, dir: false })
         }
 
         pub fn sync_all(&self) -> io::Result<()> {
@@ -450,10 +522,11 @@ pub mod fs {
         }
     }
 
-    /// What `File::metadata` reports about a file of the simulated world.
+    /// What `metadata` reports about a file or directory of the simulated world.
     #[derive(Clone, Debug)]
     pub struct Metadata {
         len: u64,
+        dir: bool,
     }
 
     impl Metadata {
@@ -464,11 +537,72 @@ pub mod fs {
             self.len == 0
         }
         pub fn is_file(&self) -> bool {
-            true
+            !self.dir
         }
         pub fn is_dir(&self) -> bool {
-            false
+            self.dir
         }
+    }
+
+    // The free functions of std::fs over the simulated file system. A path that is no file of the
+    // simulated world but exists on the host (the persistence directory, /repo/example.cfg read by
+    // one C15 scenario) is looked up there for reading; nothing is ever written to the host.
+
+    pub fn read<P: AsRef<Path>>(path: P) -> io::Result<Vec<u8>> {
+        let p = path.as_ref().to_string_lossy().to_string();
+        dsim::yield_point(dsim::Op::Small);
+        match dsim::with(|w| w.vfs.get(&p).map(|f| f.data.clone())) {
+            Some(d) => {
+                dsim::with(|w| w.record(dsim::Ev::FileOpen { path: p.clone(), ok: true }));
+                Ok(d)
+            }
+            None => std::fs::read(path),
+        }
+    }
+
+    pub fn read_to_string<P: AsRef<Path>>(path: P) -> io::Result<String> {
+        String::from_utf8(read(path)?).map_err(|_| io::Error::new(io::ErrorKind::InvalidData, "stream did not contain valid UTF-8"))
+    }
+
+    pub fn write<P: AsRef<Path>, C: AsRef<[u8]>>(path: P, contents: C) -> io::Result<()> {
+        let mut f = File::create(path)?;
+        f.write_all(contents.as_ref())
+    }
+
+    pub fn metadata<P: AsRef<Path>>(path: P) -> io::Result<Metadata> {
+        let p = path.as_ref().to_string_lossy().to_string();
+        if let Some(len) = dsim::with(|w| w.vfs.get(&p).map(|f| f.data.len() as u64)) {
+            return Ok(Metadata { len, dir: false });
+        }
+        let prefix = format!("{}/", p.trim_end_matches('/'));
+        if dsim::with(|w| w.vfs.keys().any(|k| k.starts_with(&prefix))) {
+            return Ok(Metadata { len: 4096, dir: true });
+        }
+        std::fs::metadata(path).map(|m| Metadata { len: m.len(), dir: m.is_dir() })
+    }
+
+    pub fn remove_file<P: AsRef<Path>>(path: P) -> io::Result<()> {
+        let p = path.as_ref().to_string_lossy().to_string();
+        dsim::with(|w| w.vfs.remove(&p)).map(|_| ()).ok_or_else(|| io::Error::new(io::ErrorKind::NotFound, "No such file or directory (os error 2)"))
+    }
+
+    pub fn rename<P: AsRef<Path>, Q: AsRef<Path>>(from: P, to: Q) -> io::Result<()> {
+        let (a, b) = (from.as_ref().to_string_lossy().to_string(), to.as_ref().to_string_lossy().to_string());
+        dsim::with(|w| match w.vfs.remove(&a) {
+            Some(f) => {
+                w.vfs.insert(b, f);
+                Ok(())
+            }
+            None => Err(io::Error::new(io::ErrorKind::NotFound, "No such file or directory (os error 2)")),
+        })
+    }
+
+    pub fn create_dir<P: AsRef<Path>>(_path: P) -> io::Result<()> {
+        Ok(())
+    }
+
+    pub fn create_dir_all<P: AsRef<Path>>(_path: P) -> io::Result<()> {
+        Ok(())
     }
 
     /// `OpenOptions` over the simulated file system (create / truncate / append / read / write)
